@@ -9,6 +9,7 @@ import (
 	"github.com/anishathalye/porcupine"
 	"github.com/enbility/spine-go/api"
 	"github.com/enbility/spine-go/model"
+	"github.com/enbility/spine-go/util"
 )
 
 // C09 — bindings: exact registry with at most one binding per server feature.
@@ -329,6 +330,19 @@ func init() {
 					p.AwaitDiscovery()
 					n := 2 + w.T.Choose(5, "nops")
 					for i := 0; i < n; i++ {
+						if w.T.Bool(1, 6, "announces-known-entity-again") {
+							// the peer announces an entity again, unchanged (the node rebuilds its view of the
+							// entity's features): the registry is about addresses, nothing changes for it
+							e := p.Ents[1+w.T.Choose(len(p.Ents)-1, "entity-again")]
+							added := model.NetworkManagementStateChangeTypeAdded
+							cmd := model.CmdType{
+								Function:                            util.Ptr(model.FunctionTypeNodeManagementDetailedDiscoveryData),
+								Filter:                              []model.FilterType{*model.NewFilterTypePartial()},
+								NodeManagementDetailedDiscoveryData: p.DiscoveryData([]*PEnt{e}, &added, true),
+							}
+							p.Await(p.SendCmd(p.NM().Address(), p.LocalNM(), model.CmdClassifierTypeNotify, nil, cmd, "entity-announced-again"))
+							w.Probe("peer-announced-known-entity-again")
+						}
 						ri := rs.issue(p, hot)
 						if w.T.Bool(1, 2, "await") {
 							p.Await(ri.ctr)
